@@ -1,12 +1,485 @@
-//! C14: harness module (stub — not built yet)
-#![allow(dead_code, unused_imports, unused_variables)]
+//! C14: processing elements bracket every module event in stack order.
+//!
+//! Every case is one real `des` network simulation (1-3 modules, 0-6 scripted
+//! `ProcessingElement`s per module, supplied globally through `SimBuilder::set_stack` and per
+//! module through `Module::stack`).  Every element hook and every handler callback appends
+//! `(module, who, hook, message id, SimTime)` to one global log; the transcript is the script
+//! followed by that log, which the Lean driver compares with the log of the model
+//! (`Proc.run`, lean/Desverif/Model/Proc.lean) entry by entry.
+//!
+//! Script lines (all objects are named by tags, so any line may be deleted):
+//!   mod <M> stages=<s> mode=append|prepend|replace     a module; order of lines = creation order
+//!   gel <E>                                            global element (instantiated for every module)
+//!   el <E> mod=<M>                                     element added by `Module::stack` of <M>
+//!   rule <E> <msgid> pass|consume|mod:<newid>          what `incoming` of <E> does with message <msgid>
+//!   emit <who> <hook> <key> sched|send <dst> <delay> <id> [task=<extra>]
+//!        who  = <E> (every instance of the element) or H:<M> (the handler of module <M>)
+//!        hook = start|end (key = ordinal of the instance's own event_start / event_end calls)
+//!               inc (element, key = message id seen) | msg (handler, key = message id)
+//!               simstart (handler, key = stage) | simend (handler, key = 0)
+//!        sched: schedule_in(msg(id), delay) on the emitting module
+//!        send : send / send_in over the gate to module <dst> (dst = own module => schedule_in)
+//!        task=<extra> (handler hooks only): spawn a tokio task that sleeps extra+1 ns and then emits
+//!   init <M> <id> <time>                               message injected before the run
+//! Transcript: the same lines, then `obs <M> <who> <hook> <msgid|-> <ns>` per logged call, then
+//! `res ok|err=<kind> time=<ns>`.
 use crate::rng::Rng;
-use crate::util::{cases, guarded, hval};
+use crate::util::{cases, guarded};
+use des::net::processing::{ProcessingElement, ProcessingStack};
+use des::prelude::*;
+use std::collections::HashMap;
+use std::fmt::Write;
+use std::sync::{Arc, Mutex};
 
-pub fn gen(_seed: u64, _count: usize, _thorough: bool) -> String {
-    String::new()
+// ------------------------------------------------------------------------------------------ script
+
+#[derive(Clone, Debug)]
+enum Act {
+    Pass,
+    Consume,
+    Modify(u16),
 }
 
-pub fn exec(_input: &str) -> String {
-    String::new()
+#[derive(Clone, Debug)]
+struct Emit {
+    send: bool,
+    dst: String,
+    delay: u64,
+    id: u16,
+    task: Option<u64>,
+}
+
+#[derive(Clone, Debug, Default)]
+struct ElemSpec {
+    tag: String,
+    rules: HashMap<u16, Act>,
+    start: HashMap<u64, Vec<Emit>>,
+    inc: HashMap<u64, Vec<Emit>>,
+    end: HashMap<u64, Vec<Emit>>,
+}
+
+#[derive(Clone, Debug, Default)]
+struct ModSpec {
+    tag: String,
+    stages: usize,
+    mode: String,
+    own: Vec<ElemSpec>,
+    msg: HashMap<u64, Vec<Emit>>,
+    simstart: HashMap<u64, Vec<Emit>>,
+    simend: HashMap<u64, Vec<Emit>>,
+}
+
+#[derive(Default)]
+struct Script {
+    mods: Vec<ModSpec>,
+    globals: Vec<ElemSpec>,
+    inits: Vec<(String, u16, u64)>,
+}
+
+fn parse(body: &[String]) -> Script {
+    let mut sc = Script::default();
+    // pass 1: objects
+    for line in body {
+        let t: Vec<&str> = line.split_whitespace().collect();
+        match t.as_slice() {
+            ["mod", m, rest @ ..] => {
+                if sc.mods.iter().any(|x| x.tag == *m) {
+                    continue;
+                }
+                let mut ms = ModSpec { tag: m.to_string(), stages: 1, mode: "append".into(), ..Default::default() };
+                for kv in rest {
+                    if let Some(v) = kv.strip_prefix("stages=") {
+                        ms.stages = v.parse().unwrap_or(1);
+                    }
+                    if let Some(v) = kv.strip_prefix("mode=") {
+                        ms.mode = v.to_string();
+                    }
+                }
+                sc.mods.push(ms);
+            }
+            _ => {}
+        }
+    }
+    let known = |sc: &Script, e: &str| sc.globals.iter().any(|x| x.tag == e) || sc.mods.iter().any(|m| m.own.iter().any(|x| x.tag == e));
+    for line in body {
+        let t: Vec<&str> = line.split_whitespace().collect();
+        match t.as_slice() {
+            ["gel", e] => {
+                if !known(&sc, e) {
+                    sc.globals.push(ElemSpec { tag: e.to_string(), ..Default::default() });
+                }
+            }
+            ["el", e, m] => {
+                if known(&sc, e) {
+                    continue;
+                }
+                if let Some(m) = m.strip_prefix("mod=") {
+                    if let Some(ms) = sc.mods.iter_mut().find(|x| x.tag == m) {
+                        ms.own.push(ElemSpec { tag: e.to_string(), ..Default::default() });
+                    }
+                }
+            }
+            _ => {}
+        }
+    }
+    // pass 2: behaviour
+    let modtags: Vec<String> = sc.mods.iter().map(|m| m.tag.clone()).collect();
+    for line in body {
+        let t: Vec<&str> = line.split_whitespace().collect();
+        match t.as_slice() {
+            ["rule", e, id, act] => {
+                let Ok(id) = id.parse::<u16>() else { continue };
+                let act = match *act {
+                    "pass" => Act::Pass,
+                    "consume" => Act::Consume,
+                    a => match a.strip_prefix("mod:").and_then(|v| v.parse::<u16>().ok()) {
+                        Some(n) => Act::Modify(n),
+                        None => continue,
+                    },
+                };
+                if let Some(es) = find_elem(&mut sc, e) {
+                    es.rules.entry(id).or_insert(act);
+                }
+            }
+            ["emit", who, hook, key, kind, dst, delay, id, rest @ ..] => {
+                let (Ok(key), Ok(delay), Ok(id)) = (key.parse::<u64>(), delay.parse::<u64>(), id.parse::<u16>()) else { continue };
+                let send = match *kind {
+                    "send" => true,
+                    "sched" => false,
+                    _ => continue,
+                };
+                if send && !modtags.iter().any(|m| m == dst) {
+                    continue; // unknown destination: the emission does not exist
+                }
+                let mut task = None;
+                for kv in rest {
+                    if let Some(v) = kv.strip_prefix("task=") {
+                        task = v.parse::<u64>().ok();
+                    }
+                }
+                let em = Emit { send, dst: dst.to_string(), delay, id, task };
+                if let Some(m) = who.strip_prefix("H:") {
+                    let Some(ms) = sc.mods.iter_mut().find(|x| x.tag == m) else { continue };
+                    match *hook {
+                        "msg" => ms.msg.entry(key).or_default().push(em),
+                        "simstart" => ms.simstart.entry(key).or_default().push(em),
+                        "simend" => ms.simend.entry(key).or_default().push(em),
+                        _ => {}
+                    }
+                } else if let Some(es) = find_elem(&mut sc, who) {
+                    let em = Emit { task: None, ..em };
+                    match *hook {
+                        "start" => es.start.entry(key).or_default().push(em),
+                        "inc" => es.inc.entry(key).or_default().push(em),
+                        "end" => es.end.entry(key).or_default().push(em),
+                        _ => {}
+                    }
+                }
+            }
+            ["init", m, id, time] => {
+                let (Ok(id), Ok(time)) = (id.parse::<u16>(), time.parse::<u64>()) else { continue };
+                if modtags.iter().any(|x| x == m) {
+                    sc.inits.push((m.to_string(), id, time));
+                }
+            }
+            _ => {}
+        }
+    }
+    sc
+}
+
+fn find_elem<'a>(sc: &'a mut Script, tag: &str) -> Option<&'a mut ElemSpec> {
+    if let Some(i) = sc.globals.iter().position(|x| x.tag == tag) {
+        return Some(&mut sc.globals[i]);
+    }
+    for m in sc.mods.iter_mut() {
+        if let Some(i) = m.own.iter().position(|x| x.tag == tag) {
+            return Some(&mut m.own[i]);
+        }
+    }
+    None
+}
+
+// ------------------------------------------------------------------------------------------ real code
+
+static LOG: Mutex<Vec<String>> = Mutex::new(Vec::new());
+/// tag of the module whose node is being built (the `set_stack` factory does not know it)
+static BUILDING: Mutex<String> = Mutex::new(String::new());
+
+fn log(module: &str, who: &str, hook: &str, msg: Option<u16>) {
+    let t = SimTime::now().as_nanos();
+    let m = msg.map(|v| v.to_string()).unwrap_or_else(|| "-".into());
+    LOG.lock().unwrap().push(format!("obs {module} {who} {hook} {m} {t}"));
+}
+
+fn do_emit(own: &str, e: &Emit) {
+    let msg = Message::default().id(e.id);
+    let d = Duration::from_nanos(e.delay);
+    if e.send && e.dst != own {
+        let gate = format!("o_{}", e.dst);
+        if e.delay == 0 {
+            send(msg, gate.as_str());
+        } else {
+            send_in(msg, gate.as_str(), d);
+        }
+    } else {
+        schedule_in(msg, d);
+    }
+}
+
+fn emit_all(own: &str, es: Option<&Vec<Emit>>) {
+    for e in es.into_iter().flatten() {
+        match e.task {
+            None => do_emit(own, e),
+            Some(extra) => {
+                let own = own.to_string();
+                let e = e.clone();
+                tokio::spawn(async move {
+                    des::time::sleep(Duration::from_nanos(extra + 1)).await;
+                    do_emit(&own, &e);
+                });
+            }
+        }
+    }
+}
+
+struct Elem {
+    module: String,
+    spec: Arc<ElemSpec>,
+    starts: u64,
+    ends: u64,
+}
+
+impl ProcessingElement for Elem {
+    fn event_start(&mut self) {
+        log(&self.module, &self.spec.tag, "start", None);
+        emit_all(&self.module, self.spec.start.get(&self.starts));
+        self.starts += 1;
+    }
+    fn incoming(&mut self, mut msg: Message) -> Option<Message> {
+        let id = msg.header().id;
+        log(&self.module, &self.spec.tag, "inc", Some(id));
+        emit_all(&self.module, self.spec.inc.get(&(id as u64)));
+        match self.spec.rules.get(&id) {
+            None | Some(Act::Pass) => Some(msg),
+            Some(Act::Consume) => None,
+            Some(Act::Modify(n)) => {
+                msg.header_mut().id = *n;
+                Some(msg)
+            }
+        }
+    }
+    fn event_end(&mut self) {
+        log(&self.module, &self.spec.tag, "end", None);
+        emit_all(&self.module, self.spec.end.get(&self.ends));
+        self.ends += 1;
+    }
+}
+
+struct Handler {
+    spec: Arc<ModSpec>,
+}
+
+impl Module for Handler {
+    fn stack(&self, stack: ProcessingStack) -> ProcessingStack {
+        let mut own = ProcessingStack::default();
+        for e in &self.spec.own {
+            own.append(Elem { module: self.spec.tag.clone(), spec: Arc::new(e.clone()), starts: 0, ends: 0 });
+        }
+        match self.spec.mode.as_str() {
+            "prepend" => {
+                own.append(stack);
+                own
+            }
+            "replace" => own,
+            _ => {
+                let mut stack = stack;
+                stack.append(own);
+                stack
+            }
+        }
+    }
+    fn num_sim_start_stages(&self) -> usize {
+        self.spec.stages
+    }
+    fn at_sim_start(&mut self, stage: usize) {
+        log(&self.spec.tag, "H", "simstart", Some(stage as u16));
+        emit_all(&self.spec.tag, self.spec.simstart.get(&(stage as u64)));
+    }
+    fn handle_message(&mut self, msg: Message) {
+        let id = msg.header().id;
+        log(&self.spec.tag, "H", "msg", Some(id));
+        emit_all(&self.spec.tag, self.spec.msg.get(&(id as u64)));
+    }
+    fn at_sim_end(&mut self) -> Result<(), RuntimeError> {
+        log(&self.spec.tag, "H", "simend", None);
+        emit_all(&self.spec.tag, self.spec.simend.get(&0));
+        Ok(())
+    }
+}
+
+fn simulate(sc: &Script) -> Result<u128, String> {
+    LOG.lock().unwrap().clear();
+    let mut sim = Sim::new(());
+    if !sc.globals.is_empty() {
+        let globals: Vec<Arc<ElemSpec>> = sc.globals.iter().map(|g| Arc::new(g.clone())).collect();
+        sim.set_stack(move || {
+            let module = BUILDING.lock().unwrap().clone();
+            let mut st = ProcessingStack::default();
+            for g in &globals {
+                st.append(Elem { module: module.clone(), spec: g.clone(), starts: 0, ends: 0 });
+            }
+            st
+        });
+    }
+    for m in &sc.mods {
+        *BUILDING.lock().unwrap() = m.tag.clone();
+        sim.node(m.tag.as_str(), Handler { spec: Arc::new(m.clone()) });
+    }
+    for a in &sc.mods {
+        for b in &sc.mods {
+            if a.tag != b.tag {
+                let o = sim.gate(a.tag.as_str(), &format!("o_{}", b.tag));
+                let i = sim.gate(b.tag.as_str(), &format!("i_{}", a.tag));
+                o.connect(i, None);
+            }
+        }
+    }
+    let mut rt = Builder::seeded(1).quiet().build(sim.freeze());
+    for (m, id, time) in &sc.inits {
+        let Some(module) = rt.app.globals().get(&ObjectPath::from(m.as_str())) else { continue };
+        rt.handle_message_on(module, Message::default().id(*id), SimTime::from_duration(Duration::from_nanos(*time)));
+    }
+    match rt.run() {
+        Ok((_, time, _)) => Ok(time.as_nanos()),
+        Err(e) => Err(format!("{e:?}").chars().filter(|c| !c.is_whitespace()).take(80).collect()),
+    }
+}
+
+pub fn exec(input: &str) -> String {
+    let mut out = String::new();
+    for (header, body) in cases(input) {
+        writeln!(out, "{header}").unwrap();
+        let body: Vec<String> = body.into_iter().filter(|l| !l.starts_with("obs ") && !l.starts_with("res ")).collect();
+        for l in &body {
+            writeln!(out, "{l}").unwrap();
+        }
+        let sc = parse(&body);
+        let res = guarded(|| simulate(&sc));
+        for l in LOG.lock().unwrap().iter() {
+            writeln!(out, "{l}").unwrap();
+        }
+        match res {
+            Ok(Ok(t)) => writeln!(out, "res ok time={t}").unwrap(),
+            Ok(Err(e)) => writeln!(out, "res err=runtime:{e} time=0").unwrap(),
+            Err(p) => {
+                let p: String = p.chars().filter(|c| !c.is_whitespace()).take(80).collect();
+                writeln!(out, "res err=panic:{p} time=0").unwrap()
+            }
+        }
+        writeln!(out, "end").unwrap();
+    }
+    out
+}
+
+// ------------------------------------------------------------------------------------------ generator
+
+const DELAYS: [u64; 6] = [0, 0, 1, 2, 5, 1000];
+
+pub fn gen(seed: u64, count: usize, thorough: bool) -> String {
+    let mut r = Rng::new(seed);
+    let mut out = String::new();
+    for k in 0..count {
+        writeln!(out, "case {k}").unwrap();
+        let nmods = r.range(1, 3) as usize;
+        let mods: Vec<String> = (0..nmods).map(|i| format!("M{i}")).collect();
+        // stack sizes: total per module 0..6
+        let nglob = if r.chance(1, 4) { 0 } else { r.below(4) as usize };
+        let globals: Vec<String> = (0..nglob).map(|i| format!("G{i}")).collect();
+        for g in &globals {
+            writeln!(out, "gel {g}").unwrap();
+        }
+        let mut elems: Vec<String> = globals.clone();
+        for (i, m) in mods.iter().enumerate() {
+            let stages = *r.pick(&[1u64, 1, 1, 2, 3, 0]);
+            let mode = *r.pick(&["append", "append", "append", "prepend", "replace"]);
+            writeln!(out, "mod {m} stages={stages} mode={mode}").unwrap();
+            let room = if mode == "replace" { 6 } else { 6 - nglob };
+            let nown = if r.chance(1, 4) { 0 } else { r.below(room as u64 + 1) as usize };
+            for j in 0..nown {
+                let e = format!("E{i}{j}");
+                writeln!(out, "el {e} mod={m}").unwrap();
+                elems.push(e);
+            }
+        }
+        // message ids: a small alphabet so that rules and emissions hit
+        let nid = r.range(3, 10);
+        let ids: Vec<u16> = (1..=nid as u16).collect();
+        // incoming rules
+        for e in &elems {
+            for id in &ids {
+                let x = r.below(10);
+                if x < 2 {
+                    writeln!(out, "rule {e} {id} consume").unwrap();
+                } else if x < 4 && (*id as u64) < nid {
+                    let n = r.range(*id as u64 + 1, nid);
+                    writeln!(out, "rule {e} {id} mod:{n}").unwrap();
+                } else if x < 5 {
+                    writeln!(out, "rule {e} {id} pass").unwrap();
+                }
+            }
+        }
+        // emissions; the message-keyed ones emit strictly larger ids (termination), and their number is bounded
+        let mut whos: Vec<String> = elems.clone();
+        for m in &mods {
+            whos.push(format!("H:{m}"));
+        }
+        let nem = if thorough { r.range(3, 20) } else { r.range(2, 12) };
+        let mut keyed = 0;
+        let mut last: Option<(String, &str, u64)> = None;
+        for _ in 0..nem {
+            // every third line or so repeats the previous (who, hook, key): several sends from one call
+            let (who, hook, key) = match (&last, r.chance(1, 3)) {
+                (Some(l), true) => l.clone(),
+                _ => {
+                    let who = r.pick(&whos).clone();
+                    let hook = if who.starts_with("H:") { *r.pick(&["msg", "msg", "msg", "simstart", "simstart", "simend"]) } else { *r.pick(&["start", "inc", "inc", "end"]) };
+                    let key = match hook {
+                        "msg" | "inc" => r.range(1, nid),
+                        "simstart" => r.below(3),
+                        "simend" => 0,
+                        _ => r.below(6),
+                    };
+                    (who, hook, key)
+                }
+            };
+            let handler = who.starts_with("H:");
+            let dst = r.pick(&mods).clone();
+            let kind = if r.chance(1, 2) { "send" } else { "sched" };
+            let delay = *r.pick(&DELAYS);
+            let id = match hook {
+                "msg" | "inc" => {
+                    if key >= nid || keyed >= 8 {
+                        continue;
+                    }
+                    keyed += 1;
+                    r.range(key + 1, nid)
+                }
+                _ => r.range(1, nid),
+            };
+            let task = if handler && hook != "simend" && r.chance(2, 5) { format!(" task={}", r.pick(&[0u64, 0, 1, 4, 999])) } else { String::new() };
+            writeln!(out, "emit {who} {hook} {key} {kind} {dst} {delay} {id}{task}").unwrap();
+            last = Some((who, hook, key));
+        }
+        // injected messages
+        let ninit = r.range(1, if thorough { 8 } else { 5 });
+        for _ in 0..ninit {
+            let m = r.pick(&mods);
+            let id = r.range(1, nid);
+            let t = *r.pick(&[0u64, 0, 1, 2, 3, 5, 7, 1000, 1001]);
+            writeln!(out, "init {m} {id} {t}").unwrap();
+        }
+        writeln!(out, "end").unwrap();
+    }
+    out
 }
